@@ -1,7 +1,7 @@
 """C15 - relative links written by iwe resolve back to the note they were written for (render-directory rule)."""
 from vlib import factbase as fb
 from vlib import q
-from .common import pname, ctx, loc
+from .common import pname, ctx, loc, through_lets
 from . import c05
 
 
@@ -133,7 +133,11 @@ def rule_r1(facts, rep, rid="C15-R1"):
     tc = [x for x in fb.walk(h.body) if x.get("k") == "mcall" and x["name"] == "to_completion"]
     okc = False
     for r in tc:
-        for y in fb.walk(r["args"][0]):
+        a0 = r["args"][0]
+        while a0.get("k") in ("addrof", "unary"):
+            a0 = a0["e"]
+        a0 = through_lets(ch, a0)         # `let relative_to = current_key.parent(); .. to_completion(&relative_to, ..)`
+        for y in fb.walk(a0):
             if y.get("k") == "mcall" and (fb.callee(y) or "").endswith("Key::parent"):
                 pv = ch.vprov(y["recv"])
                 if q.has_call(pv, "UrlExt::to_key") or any(a[0] == "field" and a[1] == "uri" for a in pv):
